@@ -8,7 +8,8 @@ LEVEL = "other"
 EXPLANATION = ("For every legal dep5 wildcard pattern over {a / * ? \\} up to a stated length the REAL dep5 matcher "
                "(python-debian globs_to_re, fullmatch) and the REAL REUSE.toml matcher of the converted pattern "
                "(_convert_asterisk + AnnotationsItem) are translated to regular languages and compared for ALL paths "
-               "(bounded in the pattern, unbounded in the path).")
+               "(bounded in the pattern, unbounded in the path). The conversion as a whole (paragraph order = precedence, "
+               "copyright / licence / comment content) is exercised end to end on dep5 files with overlapping and identically licensed paragraphs.")
 
 TIMEOUT_MS = [20000]
 ALPHABET = ["a", "/", "*", "?", "\\"]
@@ -51,6 +52,75 @@ def check_pattern(pat):
     return {"pattern": pat, "fails": fails}
 
 
+DEP5_HEAD = "Format: https://www.debian.org/doc/packaging-manuals/copyright-format/1.0/\nUpstream-Name: x\nUpstream-Contact: y\nSource: z\n"
+PARAS = [("*", "2001 Jane", "MIT"), ("src/*", "2002 John", "0BSD"), ("src/vendor/jane.dat", "2001 Jane", "MIT"), ("doc/*.md docs/*", "2003 Doc", "CC0-1.0"),
+         ("src/*.c", "2004 C People", "ISC"), ("*.dat", "2002 John", "0BSD"), ("src/vendor/*", "2005 Vendor", "Apache-2.0")]
+FILES = ["top.txt", "a.dat", "src/main.c", "src/util.py", "src/vendor/jane.dat", "src/vendor/lib.c", "doc/a.md", "doc/b.txt", "docs/deep/x.md",
+         "other/deep/f.dat"]
+
+
+def conversion_end_to_end(tier):
+    """dep5 files with several (overlapping, non-adjacent, identically licensed) paragraphs: per-file information before
+    and after the real `reuse convert-dep5`"""
+    import shutil, tempfile, warnings
+    from pathlib import Path
+    from click.testing import CliRunner
+    from pyvc.driver import Bounded, VERIF
+    from reuse.cli.main import main
+    from reuse.project import Project
+    os.environ["_SUPPRESS_DEP5_WARNING"] = "1"
+    warnings.simplefilter("ignore")
+    os.makedirs(os.path.join(VERIF, ".scratch"), exist_ok=True)
+    failures, cases = [], 0
+    k = 4 if tier == "thorough" else 3
+    combos = [c for n in range(1, k + 1) for c in itertools.permutations(range(len(PARAS)), n)]
+    if tier != "thorough":
+        combos = combos[::3]
+    cwd = os.getcwd()
+
+    def view(root):
+        project = Project.from_directory(Path(root))
+        out = {}
+        for f in FILES:
+            infos = project.reuse_info_of(Path(root) / f)
+            out[f] = (sorted(l for i in infos for l in i.copyright_lines), sorted(str(e) for i in infos for e in i.spdx_expressions))
+        return out
+    for combo in combos:
+        cases += 1
+        d = tempfile.mkdtemp(dir=os.path.join(VERIF, ".scratch"))
+        try:
+            for f in FILES:
+                os.makedirs(os.path.dirname(os.path.join(d, f)) or d, exist_ok=True)
+                with open(os.path.join(d, f), "w") as fp:
+                    fp.write("data\n")
+            os.makedirs(os.path.join(d, ".reuse"))
+            text = DEP5_HEAD + "".join(f"\nFiles: {PARAS[i][0]}\nCopyright: {PARAS[i][1]}\nLicense: {PARAS[i][2]}\n" for i in combo)
+            with open(os.path.join(d, ".reuse", "dep5"), "w") as fp:
+                fp.write(text)
+            before = view(d)
+            os.chdir(d)
+            try:
+                r = CliRunner().invoke(main, ["--root", d, "convert-dep5"])
+            finally:
+                os.chdir(cwd)
+            case = {"paragraphs": [PARAS[i] for i in combo]}
+            if r.exit_code != 0 or not os.path.exists(os.path.join(d, "REUSE.toml")) or os.path.exists(os.path.join(d, ".reuse", "dep5")):
+                failures.append(dict(case, problem=f"convert-dep5 exit {r.exit_code}: {r.output[-200:]}", replayed=True))
+                continue
+            after = view(d)
+            for f in FILES:
+                if before[f] != after[f]:
+                    failures.append(dict(case, file=f, problem=f"{f}: before the conversion {before[f]}, after it {after[f]}", replayed=True))
+                    break
+        finally:
+            shutil.rmtree(d, ignore_errors=True)
+        if len(failures) > 10:
+            break
+    return Bounded("conversion-end-to-end", f"every ordered selection of up to {k} of {len(PARAS)} Files paragraphs (overlapping patterns, "
+                   f"identical licensing in non-adjacent paragraphs) x {len(FILES)} files: copyright and licence per file before and after the "
+                   "real convert-dep5", cases, failures[:10], "real `reuse convert-dep5`; Project.reuse_info_of before (dep5) and after (REUSE.toml)")
+
+
 def run(ctx):
     from pyvc.driver import Bounded
     maxlen = 5 if ctx.tier == "thorough" else 4
@@ -70,6 +140,7 @@ def run(ctx):
     ctx.samples.append({"patterns": len(pats), "legal": len(legal), "example": check_pattern("a*/\\*")})
     ctx.bounded.append(Bounded("matcher-equivalence", f"every legal dep5 pattern over {ALPHABET} up to length {maxlen}; all paths per pattern",
                                len(legal) * 2, failures, "language equality of the two real compiled matchers, decided by z3"))
+    ctx.bounded.append(conversion_end_to_end(ctx.tier))
     ctx.trust("python-debian globs_to_re / FilesParagraph.matches (installed version), tomlkit dumps/loads round trip")
     ctx.trust("z3 regex theory; pyvc.rx translation")
 
